@@ -612,9 +612,33 @@ func (c *EvalCtx) evalCall(e *CallE) TV {
 		x := c.eval(e.Args[0])
 		r := refOf(x)
 		return TV{V: And(Not(Select(c.old.Alloc, r)), Select(c.cur.Alloc, r), Ne(r, BVU(0, 64))), T: types.Typ[types.Bool]}
+	case "evRecv":
+		// the receiver (interface value) that logged call i was made on
+		idx := c.convert(c.eval(e.Args[0]), types.Typ[types.Uint64]).V.(*Term)
+		return TV{V: Select(c.cur.evArray("ev:recv", IfaceSrt), idx), T: types.NewInterfaceType(nil, nil)}
+	case "evResult":
+		// evResult(i, k, "Type"): result k of logged call i, which has the given type
+		idx := c.convert(c.eval(e.Args[0]), types.Typ[types.Uint64]).V.(*Term)
+		kc := c.eval(e.Args[1])
+		sl, ok := e.Args[2].(*StrLit)
+		if kc.C == nil || !ok {
+			evalFail("evResult(i, k, \"Type\")")
+		}
+		rt := c.resolveType(sl.Val)
+		j := -1
+		v := buildShape(rt, func(_ string, s *Sort) *Term {
+			j++
+			return Select(c.cur.evArray(fmt.Sprintf("ev:r%d.%d:%s", kc.C.Int64(), j, s.String()), s), idx)
+		}, "")
+		return TV{V: v, T: rt}
 	case "typeIs":
 		x := c.eval(e.Args[0])
-		t := c.tryType(e.Args[1])
+		var t types.Type
+		if sl, ok := e.Args[1].(*StrLit); ok {
+			t = c.resolveType(sl.Val)
+		} else {
+			t = c.tryType(e.Args[1])
+		}
 		if t == nil {
 			evalFail("typeIs: unknown type %s", ExprString(e.Args[1]))
 		}
